@@ -120,6 +120,16 @@ CLAIMED = {
              "implementation's own patched bytes over a 16-value lattice, and real links are run on this host with absolute symbols at boundary values. One defect repaired (fix: R_X86_64_32S).",
         technique="Coq proof (finite enumeration of instruction headers with symbolic fields + modular arithmetic) + model/implementation correspondence through verif_hooks::x86_64::new_relaxation + objdump/e2e validation",
         design_ref="DESIGN.md §3 C14"),
+    "C30": dict(
+        text="S1: Gallina models of wild's array ordering (init_fini_priority/parse_priority_suffix, one secondary output section per priority sorted by priority behind the primary, parts by "
+             "decreasing alignment, .ctors/.dtors contents reversed) and of GNU ld's default script (SORT_BY_INIT_PRIORITY over .init_array.* and .ctors.* with ld's section-name tie-break, then "
+             "the plain sections in input order). Theorem: for every list of sections whose suffixes are priorities below 65535 after the .ctors inversion, with one alignment and equal "
+             "priorities spelled alike, wild's order = ld's order (via: a stable sort is the concatenation of its key buckets). Three refutation theorems mark the rest of the input space; "
+             "each is reproduced against wild and GNU ld and recorded as a known finding.",
+        note="Trusted: the GNU ld side is a specification; it is validated on every run against ld 2.40 itself on the generated links (0 disagreements), as is wild against wild_order. crtbegin/"
+             "crtend EXCLUDE_FILE clauses are outside the model. Entries are read back between __X_array_start/__X_array_end and, separately, inside sh_size (what DT_X_ARRAYSZ covers).",
+        technique="Coq proof (stable insertion sort = bucket concatenation, induction over lists and ranges) + model/implementation and spec/GNU-ld correspondence on generated links",
+        design_ref="DESIGN.md §3 C30"),
     "C37": dict(
         text="S1 on top of C03: DT_NEEDED = the shared libraries in the verified loaded set, in command-line order. Theorems: listed iff loaded shared library; every --no-as-needed library listed; "
              "an --as-needed library listed only if some loaded file non-weakly references a name whose first definition it is; strictly increasing command-line positions (each at most once).",
